@@ -20,6 +20,7 @@ type Scenario struct {
 	CtxAPI     bool          // background: call ShutdownContext(context.Background()) instead of Shutdown()
 	HoldMs     int           // how long after shutdown.call the controller logs "release" (frees held handlers)
 	Misuse     []Misuse      // start/stop misuse operations
+	MaxTCP     int           // Server.MaxTCPQueries: -1 (unlimited), 0 (default 128), 1, 2, 128
 	Waits      []memnet.Wait // interposition plan
 }
 
@@ -37,8 +38,8 @@ type Req struct {
 }
 
 type Misuse struct {
-	Op string // shutdownBeforeStart | secondStart | secondShutdown | restartAfterShutdown
-	At string // event at which the controller performs it (ignored for the first and last)
+	Op string // shutdownBeforeStart | failedStart | secondStart | secondShutdown | restartAfterShutdown
+	At string // event at which the controller performs it (ignored for the first and last); failedStart: the kind of failure
 }
 
 func (s Scenario) stream() bool {
@@ -90,6 +91,9 @@ func (s Scenario) reachable() []string {
 			if !c.Pipeline {
 				out = append(out, fmt.Sprintf("client(%d).sent(%d)", j, q))
 			}
+			if s.stream() && s.MaxTCP > 0 && qi >= s.MaxTCP {
+				stopped = true // the server closes the connection after MaxTCPQueries requests
+			}
 			if stopped { // stream: the conn goroutine is still inside an earlier handler
 				break
 			}
@@ -131,6 +135,10 @@ func (s Scenario) reachable() []string {
 	return out
 }
 
+// failedStartKinds: ways in which a start fails before (or, closedListener, right after) the server
+// begins to serve. Afterwards Shutdown must return at once and the same Server value must start.
+var failedStartKinds = []string{"closedUDP", "closedUDP", "closedListener", "nilListeners", "badAddrTCP", "badAddrUDP", "badNet", "portInUseTCP", "portInUseUDP", "tlsNoCert"}
+
 var transportsMem = []string{"memTCP", "memTCP", "memTCP", "memTLS", "memPacket", "memPacket", "memPacket"}
 var transportsReal = []string{"realUDP", "realTCP"}
 
@@ -140,6 +148,7 @@ func genReal(t *rapid.T) Scenario { return genScenario(t, transportsReal) }
 func genScenario(t *rapid.T, transports []string) Scenario {
 	var s Scenario
 	s.Transport = rapid.SampledFrom(transports).Draw(t, "transport")
+	s.MaxTCP = rapid.SampledFrom([]int{-1, -1, -1, 0, 0, 1, 2, 128}).Draw(t, "maxTCP")
 	nc := rapid.SampledFrom([]int{0, 1, 1, 1, 2, 2, 3, 4}).Draw(t, "clients")
 	postEvents := []string{"release", "release", "release", "shutdown.call"}
 	if s.stream() && s.spied() {
@@ -240,13 +249,15 @@ func genScenario(t *rapid.T, transports []string) Scenario {
 	nm := rapid.SampledFrom([]int{0, 0, 0, 1, 1, 2}).Draw(t, "misuse")
 	seen := map[string]bool{}
 	for i := 0; i < nm; i++ {
-		op := rapid.SampledFrom([]string{"shutdownBeforeStart", "secondStart", "secondStart", "secondShutdown", "secondShutdown", "restartAfterShutdown"}).Draw(t, "op")
+		op := rapid.SampledFrom([]string{"shutdownBeforeStart", "failedStart", "failedStart", "secondStart", "secondStart", "secondShutdown", "secondShutdown", "restartAfterShutdown"}).Draw(t, "op")
 		if seen[op] {
 			continue
 		}
 		seen[op] = true
 		m := Misuse{Op: op}
 		switch op {
+		case "failedStart":
+			m.At = rapid.SampledFrom(failedStartKinds).Draw(t, "failKind")
 		case "secondStart":
 			m.At = rapid.SampledFrom(reach).Draw(t, "startAgainAt")
 		case "secondShutdown":
